@@ -341,7 +341,7 @@ class Check:
         with open(os.path.join(ROOT, "evidence", self.prop + ".json"), "w") as f:
             json.dump(ev, f, indent=1, default=str)
         for h in self.known_hits:
-            print("KNOWN-FINDING: property=%s %s" % (self.prop, h["text"]))
+            print("KNOWN-FINDING: property=%s %s" % (self.prop, re.sub(r"^known: property=\S+ ", "", h["text"])))
         for v in self.violations:
             print("VIOLATION property=%s replay=%s" % (self.prop, v["replay"]))
             print("  " + v["text"][:2000])
